@@ -291,7 +291,7 @@ func genHostPort(r *core.Rand) string {
 // ---- cases ----
 
 func (P) Gen(r *core.Rand, tier string, emit func([]string)) {
-	nBasic, nExp, nConc, nRef, nOdd, nLib, nVfy, nPoll, nFault := 12, 4, 6, 4, 5, 60, 25, 1, 4
+	nBasic, nExp, nConc, nRef, nOdd, nLib, nVfy, nPoll, nFault := 12, 4, 6, 4, 5, 60, 25, 1, 2
 	if tier == "thorough" {
 		nBasic, nExp, nConc, nRef, nOdd, nLib, nVfy, nPoll, nFault = 160, 30, 60, 30, 60, 3000, 600, 8, 40
 	}
